@@ -374,7 +374,15 @@ func engineC07(c *vctx) error {
 			if cf.v >= 2 && ft.t != restic.ConfigFile {
 				tab, _, _ = c07Tab(inner)
 			}
-			verr := repository.VerifC07VerifyUnpacked(r.repo, ct, ft.t, expected)
+			var verr error
+			func() {
+				defer func() {
+					if rec := recover(); rec != nil {
+						verr = fmt.Errorf("panic: %v", rec) // a crash of the self check counts as not accepted
+					}
+				}()
+				verr = repository.VerifC07VerifyUnpacked(r.repo, ct, ft.t, expected)
+			}()
 			c.Hist(fmt.Sprintf("verify:accepted=%v", verr == nil))
 			c.Case("verify", len(expected) > 0, len(expected), fmt.Sprintf("C07m.CVerify %s %s %s %s %s %s", coqN(uint64(cf.v)), ft.coq, innerOpt, coqHex(expected), tab, coqBool(verr == nil)),
 				fmt.Sprintf("%s %s mode=%d inner[%d] expected[%d] -> %v", tag, ft.name, mode, len(inner), len(expected), verr))
